@@ -7,7 +7,7 @@ from fvsym.props.c01 import history  # noqa  (harness shared with C01, mirror as
 
 BOUNDS = {
     "quick": "C01's inductive steps and 2-step histories on tensor-owned skeletons 2, [1,1], [2,1], [1,0], [] with mirror() asserted after "
-             "every step; constructors (empty+insertions, fromFiber, fromUncompressed 2x2, deepcopy) and every transform on [2,1]/[1,1]/[1,0] "
+             "every step; constructors (empty+insertions, fromFiber / setRoot of a free or an owned root, fromUncompressed 2x2, makePopulated, deepcopy), Tensor.clearStats reach and every transform on [2,1]/[1,1]/[1,0] "
              "(swizzle on a 2x2 box with symbolic values); read-only co-iterating traversals (|, ==, uncompress, Format.getRank)",
     "thorough": "adds 3-fibers, [2,2], [0,1], depth-3 skeleton [[1,1]] for transforms, 2x2x2 swizzles, split step/halo variants",
 }
@@ -87,12 +87,52 @@ def ctor(sk, *xs):
         return mirror(t) and wf(t.getRoot()) >= 0
     if kind == "fromFiber_owned":
         # a root that already belongs to a tensor is copied: both tensors stay consistent
-        f, pos, _ = build_tree(sk["tree"], xs)
-        t = Tensor.fromFiber(["M", "K"], f)
-        u = Tensor.fromFiber(["M", "K"], t.getRoot())
+        # (Fiber.copy keys a dict by coordinate, which would realise symbolic coordinates: concrete box coordinates, symbolic values;
+        #  a zero value is an explicit default and an all-zero row an all-default sub-fiber)
+        f, pos = build_box(sk["box"], xs)
+        ids = rank_ids_for(len(sk["box"]))
+        t = Tensor.fromFiber(ids, f)
+        c0 = content(t.getRoot())
+        u = Tensor.fromFiber(ids, t.getRoot()) if not sk.get("setroot") else Tensor(rank_ids=ids)
+        if sk.get("setroot"):
+            u.setRoot(t.getRoot())
         if u.getRoot() is t.getRoot():
             return fail("owned root not copied")
-        return mirror(t) and mirror(u)
+        if content(u.getRoot()) != c0 or content(t.getRoot()) != c0:
+            return fail("content changed")
+        if not mirror(t):
+            return fail("source tensor after its root was handed to another tensor: " + str(LAST_FAIL))
+        return mirror(u)
+    if kind == "makePopulated":
+        dims = sk["dims"]
+        v = xs[0]
+        t = Tensor.makePopulated(rank_ids_for(len(dims)), dims, initial=v)
+        want = []
+        if v != 0:
+            for i in range(dims[0]):
+                for j in range(dims[1]):
+                    want.append(((i, j), v))
+        if content(t.getRoot()) != want:
+            return fail("makePopulated content")
+        if not t.isMutable() or t.getShape() != dims:
+            return fail("makePopulated shape / mutability")
+        r = t.getPayloadRef(xs[1], xs[2])
+        r <<= xs[3]
+        return mirror(t) and wf(t.getRoot()) >= 0
+    if kind == "clearStats":
+        # statistics clearing walks the rank lists: it must reach exactly the live fibers, also ones created after construction
+        f, pos, _ = build_tree(sk["tree"], xs)
+        t = Tensor.fromFiber(["M", "K"], f)
+        r = t.getPayloadRef(xs[pos], xs[pos + 1])
+        r <<= xs[pos + 2]
+        live = [g for lvl in fibers_at_depth(t.getRoot()) for g in lvl]
+        for g in live:
+            g.setSavedPos(0, distance=2)
+        t.clearStats()
+        for g in live:
+            if g.getSavedPosStats(clear=False) != (0, 0):
+                return fail("Tensor.clearStats missed a live fiber")
+        return mirror(t)
     if kind == "setRoot_twice":
         f, pos, _ = build_tree(sk["tree"], xs)
         g, pos, _ = build_tree(sk["tree"], xs, pos)
@@ -160,15 +200,16 @@ def obligations(tier):
         obs.append(Ob("ctor/empty_insert/3", "ctor", dict(kind="empty_insert", n=3), names("i", 9), []))
     obs.append(Ob("ctor/fromUncompressed/2x2", "ctor", dict(kind="fromUncompressed", dims=[2, 2]), names("v", 4), []))
     obs.append(Ob("ctor/fromUncompressed/3", "ctor", dict(kind="fromUncompressed", dims=[3]), names("v", 3), []))
+    obs.append(Ob("ctor/makePopulated/2x2", "ctor", dict(kind="makePopulated", dims=[2, 2]), ["v", "i0", "i1", "w"], ["0 <= i0 < 2", "0 <= i1 < 2"]))
+    for tree in ([1, 1], [1, 0], []):
+        ps = names("x", tree_params(tree))
+        obs.append(Ob("ctor/clearStats/%s" % str(tree).replace(" ", ""), "ctor", dict(kind="clearStats", tree=tree), ps + ["i0", "i1", "w"], tree_pre(tree, ps)[0]))
+    for box in ([2, 2], [1, 2, 2]):
+        for sr in (False, True):
+            obs.append(Ob("ctor/%s_owned/box%s" % ("setRoot" if sr else "fromFiber", "x".join(map(str, box))), "ctor", dict(kind="fromFiber_owned", box=box, setroot=sr),
+                          names("v", box_size(box)), []))
     for tree in ([1, 1], [1, 0]):
         ps = names("x", tree_params(tree))
-        if True:
-            ps2 = ps + names("y", tree_params(tree))
-            obs.append(Ob("ctor/setRoot_twice/%s" % str(tree).replace(" ", ""), "ctor", dict(kind="setRoot_twice", tree=tree), ps2,
-                          tree_pre(tree, ps)[0] + tree_pre(tree, names("y", tree_params(tree)))[0]))
-            continue
-        obs.append(Ob("ctor/fromFiber_owned/%s" % str(tree).replace(" ", ""), "ctor", dict(kind="fromFiber_owned", tree=tree), ps,
-                      tree_pre(tree, ps)[0]))
         ps2 = ps + names("y", tree_params(tree))
         obs.append(Ob("ctor/setRoot_twice/%s" % str(tree).replace(" ", ""), "ctor", dict(kind="setRoot_twice", tree=tree), ps2,
                       tree_pre(tree, ps)[0] + tree_pre(tree, names("y", tree_params(tree)))[0]))
